@@ -13,11 +13,15 @@ CLAIM = ("Metamorphic check on the real binary: every accepted grammar (bundled 
          "`# comments` / form feeds at every token boundary where layout may stand (around | || = ; after ( [ before ) ] before ..., "
          "between a literal and its description), `::=` for `=`, final `;` dropped, redundant parentheses around space-separated items "
          "outside words, a random permutation of the definitions — must compile to byte-identical scripts for the four shells, with the "
-         "same warnings up to location. The theorem chain of DESIGN.md §3 C14 (layout_irrelevant → span_irrelevant → "
-         "defn_order_irrelevant) needs the parser model's round-trip theorems (C05) and is open; the level claimed is exploration.")
-NOTE = ("Exploration only: no theorem closes this property yet. Trusted: the tokeniser that decides where layout may be inserted (inserting "
+         "same warnings up to location. Proved (Props/C14.lean): the statement-order half — meaning_order_irrelevant (Spec.meaning is invariant "
+         "under every permutation of the statements that keeps the call variants in order, when no name is defined twice) and "
+         "defn_order_irrelevant (hence, through C02's validation_is_meaning, the model of check.rs returns the same validated expression for "
+         "two such grammars whenever it accepts both), and span_irrelevant_meaning. The layout half (layout_irrelevant: texts differing in "
+         "layout parse to trees differing in spans only) needs round-trip theorems of the parser model (C05) and is open, so the level "
+         "claimed for the property as a whole stays exploration.")
+NOTE = ("The order half is a theorem over the model of check.rs (tied to the library on every C02/C08/C15 run); the layout half is exploration only. Trusted: the tokeniser that decides where layout may be inserted (inserting "
         "layout where the syntax forbids it would change the meaning and raise a false alarm; it is restricted to the places listed).")
-TECHNIQUE = "metamorphic byte comparison of the real binary's output under meaning-preserving re-layouts"
+TECHNIQUE = "metamorphic byte comparison of the real binary's output under meaning-preserving re-layouts + Lean theorems for the statement-order half"
 DESIGN_REF = "§3 C14"
 
 LAYOUTS = [" ", "  ", "\t", "\n", "\n\n", " \n  ", " # a comment\n", "\n# c1\n# c2 | ; (\n", " \x0c ", "\n\x0c\n", " #\n", "\r\n"]
